@@ -3,6 +3,7 @@
 // LoadFromAutDesc with a translator that maps the state name "q<N>" to the number N, and read back by
 // DumpToString + TimbukParser (ExplicitFiniteAut exposes no other read access to its transitions).
 #include "common.hh"
+#include <set>
 #include "fa_util.hh"
 
 #include <vata/incl_param.hh>
@@ -60,6 +61,28 @@ json ReadFA(const FA& aut)
 	return res;
 }
 
+// the second operand: "copy" = a copy of A, "extend" = a copy of A edited through the API into the value jb (jb's start /
+// final states and edges contain A's; only what A lacks is added, so that nothing is detached needlessly)
+FA MakeSecondFA(const FA& a, const json& ja, const json& jb, const std::string& bmode)
+{
+	if (bmode == "copy" || bmode == "alias") { return FA(a); }
+	if (bmode != "extend") { return MakeFA(jb); }
+	FA b(a);
+	auto symOf = [](FA& x, const std::string& name) { auto tr = x.GetAlphabet()->GetSymbolTransl(); return (*tr)(name); };
+	std::set<std::string> have;
+	for (const json& e : ja.at("delta")) { have.insert(e.dump()); }
+	std::set<size_t> hs, hf;
+	for (const json& q : ja.at("start")) { hs.insert(q.get<size_t>()); }
+	for (const json& q : ja.at("fin")) { hf.insert(q.get<size_t>()); }
+	for (const json& q : jb.at("fin")) { if (!hf.count(q.get<size_t>())) { b.SetStateFinal(q.get<size_t>()); } }
+	for (const json& q : jb.at("start")) { if (!hs.count(q.get<size_t>())) { b.SetStateStart(q.get<size_t>(), symOf(b, "x")); } }
+	for (const json& e : jb.at("delta"))
+	{
+		if (!have.count(e.dump())) { b.AddTransition(e.at(0).get<size_t>(), symOf(b, e.at(1).get<std::string>()), e.at(2).get<size_t>()); }
+	}
+	return b;
+}
+
 namespace {
 
 json prodMapToJson(const AutBase::ProductTranslMap& m)
@@ -78,7 +101,7 @@ VDRIVE_OP(faincl)
 	FA a = MakeFA(c.at("A"));
 	// "bmode": "alias" = the same object is both operands, "copy" = B is a copy of A sharing its storage (value B = A)
 	std::string bmode = c.value("bmode", "");
-	FA bc = (bmode == "copy") ? FA(a) : MakeFA(c.at("B"));
+	FA bc = MakeSecondFA(a, c.at("A"), c.at("B"), bmode);
 	const FA& b = (bmode == "alias") ? a : bc;
 	// heap-layout perturbation: the algorithms order macro-states by address
 	std::vector<std::unique_ptr<char[]>> dummies;
@@ -93,7 +116,8 @@ VDRIVE_OP(faincl)
 	}
 	ip.SetUseSimulation(false);
 	SetStage(("CheckInclusion:" + sel).c_str());
-	bool v = FA::CheckInclusion(a, b, ip);
+	// "swap": the second operand (e.g. the edited copy) is the smaller one
+	bool v = c.value("swap", false) ? FA::CheckInclusion(b, a, ip) : FA::CheckInclusion(a, b, ip);
 	json res;
 	res["v"] = v ? "T" : "F";
 	SetStage("readback");
@@ -127,13 +151,14 @@ VDRIVE_OP(faop)
 	if (binary)
 	{
 		std::string bmode = c.value("bmode", "");
-		FA bc = (bmode == "copy") ? FA(a) : ((bmode == "alias") ? FA() : prep(c.at("B"), c.value("preB", ""), "B1"));
+		FA bc = (bmode == "copy" || bmode == "extend") ? MakeSecondFA(a, c.at("A"), c.at("B"), bmode)
+			: ((bmode == "alias") ? FA() : prep(c.at("B"), c.value("preB", ""), "B1"));
 		const FA& b = (bmode == "alias") ? a : bc;
 		SetStage(kind.c_str());
 		if (kind == "union")
 		{
 			AutBase::StateToStateMap ml, mr;
-			FA r = FA::Union(a, b, &ml, &mr);
+			FA r = c.value("swap", false) ? FA::Union(b, a, &mr, &ml) : FA::Union(a, b, &ml, &mr);
 			SetStage("dump(R)");
 			res["R"] = ReadFA(r);
 			res["mapL"] = StateMapToJson(ml);
@@ -148,10 +173,13 @@ VDRIVE_OP(faop)
 		else
 		{
 			AutBase::ProductTranslMap pm;
-			FA r = FA::Intersection(a, b, &pm);
+			bool nomap = c.value("nomap", false);       // the default argument (no product map)
+			bool swap = c.value("swap", false);         // the second operand (e.g. the edited copy) as left operand
+			FA r = nomap ? (swap ? FA::Intersection(b, a) : FA::Intersection(a, b))
+			             : (swap ? FA::Intersection(b, a, &pm) : FA::Intersection(a, b, &pm));
 			SetStage("dump(R)");
 			res["R"] = ReadFA(r);
-			res["map"] = prodMapToJson(pm);
+			if (!nomap) { res["map"] = prodMapToJson(pm); }
 		}
 		SetStage("readback");
 		res["B_after"] = ReadFA(b);
